@@ -2808,13 +2808,23 @@ impl<I: SignedInteger> FromBitStreamUsing for Residuals<I> {
             let partition_order = reader.read::<4, u32>()?;
             let partition_count = 1 << partition_order;
 
+            // the same layout rule as the streaming decoder:
+            // the residuals must split into exactly this many partitions
+            let partition_size = block_size / partition_count;
+            let residuals = block_size
+                .checked_sub(predictor_order)
+                .ok_or(Error::InvalidPartitionOrder)?;
+            if partition_size == 0 || residuals.div_ceil(partition_size) != partition_count {
+                return Err(Error::InvalidPartitionOrder);
+            }
+
             (0..partition_count)
                 .map(|p| {
-                    reader.parse_using(
-                        (block_size / partition_count)
-                            .checked_sub(if p == 0 { predictor_order } else { 0 })
-                            .ok_or(Error::InvalidPartitionOrder)?,
-                    )
+                    reader.parse_using(if p == 0 {
+                        residuals - (partition_count - 1) * partition_size
+                    } else {
+                        partition_size
+                    })
                 })
                 .collect()
         }
